@@ -1460,4 +1460,25 @@ pub fn replay(case: &Sx) -> Option<Sx> {
     Some(run_auth(c.v, &c.ev, &c.state).0)
 }
 
-pub fn dump(_dir: &str) {}
+/// Probe the compiled `TimelineEventType::from` with every string literal of ruma-events'
+/// `event_enum!` declaration; record the ones that do not come back as themselves (aliases).
+pub fn dump(dir: &str) {
+    let src = std::fs::read_to_string("/repo/crates/ruma-events/src/enums.rs").unwrap_or_default();
+    let mut lits: Vec<String> = vec![];
+    // every quote-delimited segment is a candidate (robust against a stray quote in a comment)
+    for lit in src.split('"') {
+        if !lit.is_empty() && lit.len() < 100 && lit.bytes().all(|b| b > 32 && b < 127 && b != b'\\') {
+            lits.push(lit.to_owned());
+        }
+    }
+    lits.sort();
+    lits.dedup();
+    let mut out = String::new();
+    for l in &lits {
+        let back = TimelineEventType::from(l.as_str()).to_string();
+        if &back != l {
+            out.push_str(&format!("{l}\t{back}\n"));
+        }
+    }
+    std::fs::write(format!("{dir}/type_aliases.txt"), out).unwrap();
+}
